@@ -7,7 +7,8 @@ CFG = {
              "written by norad (3k / 60k) plus every file missing / a directory / a symlink loop and adversarial directory and glif paths in layercontents.plist "
              "and contents.plist; API-built values the documentation does not exclude; deep nesting (up to 100k / 400k levels) in child processes. Every call "
              "under catch_unwind with the panic location recorded; whatever loads is also saved/encoded. The modelled entry points are covered by theorems "
-             "(obligations). non-trivial = a mutation was applied; distinct by input tokens"),
+             "(obligations). In addition the generators of C02, C06, C07, C12, C13, C14, C15, C16 and C18 are run and only their panic / abort / hang "
+             "rules are kept (every correspondence run is also a totality run). non-trivial = a mutation was applied; distinct by input tokens"),
     "exhaustive": {"quick": False, "thorough": False},
     "trusted_base": COMMON_TRUST + [
         "PARTIAL BY NATURE: the theorems cover the modelled logic (container operations, save index walk, the unreachable!() of end_path; more are added as models are merged); "
@@ -18,6 +19,12 @@ CFG = {
         "documented panics (Glyph::new on an invalid name, WriteOptions::indent/whitespace with invalid settings, more than 99 file-name clashes) are allowed outcomes and are not generated here",
         "a wall-clock limit of 60 s per child-process case stands in for 'hang'",
     ],
+    # every other property's generator is also a C03 run: only their panic / abort / hang rules count here,
+    # their model agreement is their own business, their recorded findings are matched under their own ids
+    "gens": ["C03", "C02", "C06", "C07", "C12", "C13", "C14", "C15", "C16", "C18"],
+    "borrowed_gens": ["C02", "C06", "C07", "C12", "C13", "C14", "C15", "C16", "C18"],
+    "gen_rules": {g: ["*panic*", "*abort*", "*hang*"] for g in ["C02", "C06", "C07", "C12", "C13", "C14", "C15", "C16", "C18"]},
+    "also_findings_of": ["C02", "C06", "C07", "C12", "C13", "C14", "C15", "C16", "C18"],
     "timeout": {"quick": 900, "thorough": 14400},
     "no_search": True,
 }
